@@ -1127,6 +1127,29 @@ def check_c13(A: Analysis, col: Collector):
     errored_is_reported(A, col, "C13.report")
     python_outputs_cover(A, col, "C13.python-outputs")
     load_and_run_results(A, col, "C13.load_and_run")
+    exit_status_rule(A, col, "C13.exit-status")
+
+
+def exit_status_rule(A: Analysis, col: Collector, rule: str):
+    """a shell command that did not exit with status 0 fails its job: every Environment.execute turns a
+    non-zero return code into an exception through an exact guard (truthiness or `!= 0`, no narrowing
+    conjunct, every path raising) -- `> 0` would let a process killed by a signal (negative code) pass."""
+    from .envs import _raises_on_return_code
+
+    env = A.cls("pydra.environments.base.Environment")
+    n = 0
+    for sub in env.all_subclasses():
+        ex = sub.methods.get("execute")
+        if ex is None or not any((dotted(c.func) or "").endswith("execute") and c is not None for c in A.calls(ex)):
+            continue
+        n += 1
+        col.scope(ex.qualname)
+        if _raises_on_return_code(ex):
+            col.ok(rule, f"{sub.name}.execute raises whenever the command's return code is not 0", A.loc(ex.node))
+        else:
+            col.fail(rule, ex.qualname, "nonzero-exit-not-raised", f"{sub.name}.execute does not raise for every non-zero return code (the guard is missing, narrowed by another condition, or tests `> 0`, which lets the negative code of a process killed by a signal pass): the job is recorded -- and cached -- as a success with partial output", A.loc(ex.node))
+    if n < 3:
+        raise AnalysisError(f"C13: {n} Environment.execute implementations found; floor 3")
 
 
 # --------------------------------------------------------------------------- #
@@ -1433,7 +1456,47 @@ def check_c19(A: Analysis, col: Collector):
     _copy_nested_core(A, col, "C19.staging")
 
 
+def staging_loop_rule(A: Analysis, col: Collector, rule: str):
+    """Job.inputs hands every file-typed field that has a value to copy_nested_files with the field's own
+    mode and collation: the only reasons not to are `the type holds no FileSet` and `no value`.  Whether a
+    file-set can be left where it is depends on mode AND collation and is FileSet.copy's decision."""
+    ji = A.func("pydra.engine.job.Job.inputs")
+    col.scope(ji.qualname)
+    calls = [c for c in A.calls(ji) if any(q.endswith("copy_nested_files") for q in A.callee_names(c, ji))]
+    A.anchor("copy_nested_files(...) in Job.inputs", calls)
+    for c in calls:
+        loop = next((p_ for p_ in parents(c) if isinstance(p_, ast.For)), None)
+        fvar = loop.target.id if loop is not None and isinstance(loop.target, ast.Name) else None
+        if fvar is None:
+            raise AnalysisError("C34: the field loop around copy_nested_files in Job.inputs was not recognised")
+        conds = []
+        for p_ in parents(c):
+            if p_ is loop:
+                break
+            if isinstance(p_, ast.If):
+                conds += p_.test.values if isinstance(p_.test, ast.BoolOp) and isinstance(p_.test.op, ast.And) else [p_.test]
+        skips = [(n, next((g for g in parents(n) if isinstance(g, ast.If)), None)) for n in ast.walk(loop) if isinstance(n, ast.Continue)]
+        bad = []
+        for cd_ in conds:
+            is_type = any(isinstance(k, ast.Call) and isinstance(k.func, ast.Attribute) and k.func.attr == "contains_type" for k in ast.walk(cd_))
+            is_value = isinstance(cd_, ast.Name) or (isinstance(cd_, ast.Compare) and isinstance(cd_.ops[0], (ast.IsNot, ast.Is)))
+            if not (is_type or is_value):
+                bad.append(cd_)
+        for n_, g_ in skips:
+            bad.append(g_.test if g_ is not None else n_)
+        if bad:
+            col.fail(rule, ji.qualname, f"staging-skipped-when:{shape(bad[0], 40)}", f"Job.inputs does not stage a file-typed field with a value when `{norm(bad[0], 60)}`: the copy mode alone does not decide whether files may stay where they are (a collation of siblings/adjacent requires scattered files to be brought together), so the field's declared staging is not applied", A.loc(bad[0]))
+        else:
+            col.ok(rule, f"Job.inputs stages every field whose type holds a FileSet and that has a value ({len(conds)} guard(s): type, value)", A.loc(c))
+        kws = {k.arg: norm(k.value) for k in c.keywords}
+        if kws.get("mode") == f"{fvar}.copy_mode" and kws.get("collation") == f"{fvar}.copy_collation":
+            col.ok(rule, "copy_nested_files receives the field's own copy_mode and copy_collation", A.loc(c))
+        else:
+            col.fail(rule, ji.qualname, f"staging-args:{kws.get('mode')}:{kws.get('collation')}", "copy_nested_files is not given the field's own copy_mode / copy_collation", A.loc(c))
+
+
 def staged_inputs_rule(A: Analysis, col: Collector, rule: str):
+    staging_loop_rule(A, col, rule)
     task = A.cls("pydra.compose.base.task.Task")
     n_sites = 0
     # python task: the user function's arguments
@@ -1983,6 +2046,14 @@ def _record_is_filled_by_submitter(A: Analysis, ev: ast.Compare) -> bool:
             if not (prev_is_worker_call or in_completed_loop):
                 return False
     call = sub.find_method("__call__")
+    # emptied BEFORE the job is handed to the worker: a clean-up after the run is skipped when the submission
+    # raises, and the next submission with the same Submitter inherits the record
+    clears = [c for c in A.calls(call) if isinstance(c.func, ast.Attribute) and c.func.attr == "clear" and isinstance(c.func.value, ast.Attribute) and c.func.value.attr == attr]
+    runs_ = [c for c in A.calls(call) if isinstance(c.func, ast.Attribute) and c.func.attr in ("run", "run_async", "run_until_complete", "submit") and (norm(c.func.value) == "self" or "worker" in norm(c.func.value) or "loop" in norm(c.func.value))]
+    if not runs_:
+        raise AnalysisError("C17: the call that hands the job to the worker in Submitter.__call__ was not found")
+    if clears and runs_ and not all(cl.lineno < min(r.lineno for r in runs_) for cl in clears):
+        return False
     cleared = any(isinstance(c.func, ast.Attribute) and c.func.attr == "clear" and isinstance(c.func.value, ast.Attribute) and c.func.value.attr == attr for c in A.calls(call)) or any(isinstance(n, ast.Assign) and any(isinstance(t, ast.Attribute) and t.attr == attr for t in n.targets) for n in walk_own(call.node))
     return cleared
 
@@ -2017,7 +2088,13 @@ def status_source_rule(A: Analysis, col: Collector, rule: str):
                     done_vars |= names
                 elif isinstance(n.value, ast.BoolOp) and isinstance(n.value.op, ast.And) and any(isinstance(v, ast.Attribute) and v.attr == "done" for v in n.value.values):
                     ev = [v for v in n.value.values if not (isinstance(v, ast.Attribute) and v.attr in ("done", "errored"))]
-                    if ev and evidence_is_set_by_submitter(A, ev[0]):
+                    # `and` short-circuits: the evidence must be tested BEFORE the cache lookup (Job.done loads what is
+                    # on disk, latches the errored flag and raises for an errored result)
+                    first_done = min(i for i, v in enumerate(n.value.values) if isinstance(v, ast.Attribute) and v.attr == "done")
+                    ev_before = bool(ev) and n.value.values.index(ev[0]) < first_done
+                    if ev and not ev_before:
+                        col.fail(rule, us.qualname, "cache-lookup-before-run-evidence", f"`{norm(n.value)}` evaluates the cache lookup before the evidence that the worker has returned from the job: Job.done loads a result left by a previous run, latches the job's errored flag and raises, although the job is still waiting in the pool", A.loc(n))
+                    if ev and ev_before and evidence_is_set_by_submitter(A, ev[0]):
                         for nm in names:
                             guarded_vars[nm] = norm(ev[0])
                     else:
